@@ -29,12 +29,15 @@ func TestClusterSelfmon(t *testing.T) {
 	cfg.HAKeepaliveInterval = 2 * time.Second
 	cfg.ConnectionTimeout = 300 * time.Millisecond
 	run := 0
+	jit := vt.StartJitter()
+	defer jit.Stop()
 	vt.EachInput(t, func(raw []byte) {
 		var in struct {
 			Ops []monOp `json:"ops"`
 		}
 		vt.MustUnmarshal(t, raw, &in)
 		run++
+		tStart := time.Now()
 		env.WipeStore()
 		ctx := Op("setup")
 		if _, err := env.Cal.AddPod(ctx, "p1", ""); err != nil {
@@ -136,7 +139,7 @@ func TestClusterSelfmon(t *testing.T) {
 			}
 			time.Sleep(100 * time.Millisecond)
 		}
-		out.Emit(Event{"ev": "Mon", "run": run, "ops": in.Ops, "final": final, "started": started, "waited": time.Since(t0).Milliseconds()})
+		out.Emit(Event{"ev": "Mon", "run": run, "ops": in.Ops, "final": final, "started": started, "waited": time.Since(t0).Milliseconds(), "starved": jit.StarvedSince(tStart)})
 		cancel()
 		if started {
 			select {
